@@ -267,6 +267,16 @@ func (e *Engine) queryText(o *Obligation) string {
 func (e *Engine) header(c *FnCtx) string {
 	var b strings.Builder
 	b.WriteString(preamble)
+	usesStrRow := false
+	for _, ln := range c.script {
+		if strings.Contains(ln, "strrow") {
+			usesStrRow = true
+			break
+		}
+	}
+	if usesStrRow {
+		b.WriteString(strrowAxiom)
+	}
 	b.WriteString(pow2fDef())
 	b.WriteString(preamble2)
 	if e.usesStrID {
